@@ -67,6 +67,13 @@ def build(ld, kind, n, keyed, tmp, shape='dict'):
             ds = ld.new(container, immutable_warranty=kind)
         elif kind == 'wu':
             ds = ld.core.from_list(container, 'wu')
+        elif kind in ('pickle_of_copy_ds', 'pickle_of_wu_ds', 'eager_cache_of_copy_ds', 'from_dataset_of_copy_ds'):
+            # a DATASET as the source of new() / from_dataset() / cache(lazy=False): the result is a snapshot in pickle mode, whatever the
+            # immutability mode of the source dataset is (a copy-mode source still references the caller's objects)
+            inner = ld.core.from_list(container, 'wu') if kind == 'pickle_of_wu_ds' else ld.new(container, immutable_warranty='copy')
+            if kind == 'eager_cache_of_copy_ds': ds = inner.cache(lazy=False)
+            elif kind == 'from_dataset_of_copy_ds': ds = ld.core.from_dataset(inner)
+            else: ds = ld.new(inner)
         elif kind == 'memcache':
             ds = ld.new(container).cache()
         elif kind == 'memcache_map':
@@ -242,13 +249,14 @@ def run(tier):
     r = common.rng_for('C09')
     big = tier != 'quick'
     tmp = tempfile.mkdtemp(prefix='c09_')
-    kinds = ['pickle', 'copy', 'wu', 'memcache', 'memcache_map', 'diskcache', 'memcache_shared', 'diskcache_shared', 'memcache_copy', 'memcache_copy_shared', 'jsonfile', 'memcache_shared_pct']
+    kinds = ['pickle', 'copy', 'wu', 'memcache', 'memcache_map', 'diskcache', 'memcache_shared', 'diskcache_shared', 'memcache_copy', 'memcache_copy_shared', 'jsonfile', 'memcache_shared_pct',
+             'pickle_of_copy_ds', 'pickle_of_wu_ds', 'eager_cache_of_copy_ds', 'from_dataset_of_copy_ds']
     cases, lcases, lmeta, meta, failures = [], [], [], [], []
     for ci in range(5000 if big else 500):
         common.tick()
         kind = r.choice(kinds)
         n = r.randint(1, 4)
-        keyed = kind not in ('wu',) and r.random() < 0.5
+        keyed = kind not in ('wu', 'pickle_of_wu_ds') and r.random() < 0.5
         serial = kind != 'copy'
         ops, nh = [], 0
         for _ in range(r.randint(2, 12)):
@@ -264,7 +272,7 @@ def run(tier):
                     ops.append(('mut', nh - 1, r.randint(1, 50)))      # carried out inside the loop body of that pass
             elif x < 0.85:
                 ops.append(('mut', r.randrange(nh), r.randint(1, 50)))
-            elif kind in ('pickle', 'wu', 'copy', 'jsonfile'):          # copy mode keeps references to the caller's examples: the model says such a change IS visible
+            elif kind in ('pickle', 'wu', 'copy', 'jsonfile', 'pickle_of_copy_ds', 'pickle_of_wu_ds', 'eager_cache_of_copy_ds', 'from_dataset_of_copy_ds'):          # copy mode keeps references to the caller's examples: the model says such a change IS visible
                 ops.append(('mutorig', r.randrange(n), r.randint(51, 99)))
             else:
                 ops.append(('mut', r.randrange(nh), r.randint(1, 50)))
